@@ -198,7 +198,7 @@ reg(PropertySpec(
     functions=["utils:resolve_dtype", "utils:convert_dtype", "samples:BaseSamples.to_namespace", "samples:Samples.to_namespace", "samples:BaseSamples.to_numpy", "samples:Samples.to_numpy",
                "samples:SMCSamples.to_numpy", "samples:BaseSamples.from_samples", "samples:SMCSamples.resample", "samples:SMCSamples.to_standard_samples", "samples:BaseSamples.__getitem__",
                "samples:Samples.__getitem__", "samples:SMCSamples.__getitem__", "samples:BaseSamples.concatenate", "samplers.importance:ImportanceSampler.sample",
-               "samplers.smc.minipcn:MiniPCNSMC.mutate", "samplers.smc.emcee:EmceeSMC.mutate", f"{SMC}:SMCSampler.restore_from_checkpoint"],
+               "samplers.smc.minipcn:MiniPCNSMC.mutate", "samplers.smc.emcee:EmceeSMC.mutate", f"{SMC}:SMCSampler.restore_from_checkpoint", "aspire:Aspire.sample_posterior"],
     native=_lazy("checks.native_misc", "native_C15"),
     technique="contract-based deductive verification over a token model (namespaces {numpy, torch, jax}, dtype families and widths, every dtype spelling): the real resolve_dtype, convert_dtype, __post_init__, asarray, to_namespace, to_numpy, from_samples are executed symbolically for every ordered pair and spelling (exhaustive finite shape enumeration, values symbolic) with the obligation that every dtype handed to xp.asarray belongs to xp; dtype carried through every sampler-internal construction (z3); exhaustive native grid",
     assumptions=["assumed contracts of the array libraries: xp.dtype(name), getattr(torch, name), asarray value preservation and its dtype-family requirement, DLPack jax->torch", "jax float64 requires the x64 switch (library configuration, excluded)"],
